@@ -103,7 +103,7 @@ func (r *DefaultReader) acquireSlow(n int) int {
 		r.bufReadOnly = false
 	}
 
-	for i := 0; i < maxConsecutiveEmptyReads; i++ {
+	for empty := 0; empty < maxConsecutiveEmptyReads; {
 		m, err := r.rd.Read(r.buf[len(r.buf):cap(r.buf)])
 		r.buf = r.buf[:len(r.buf)+m]
 		if err != nil {
@@ -116,7 +116,13 @@ func (r *DefaultReader) acquireSlow(n int) int {
 		if n <= len(r.buf)-r.ri {
 			return n
 		}
+		if m > 0 {
+			empty = 0
+		} else {
+			empty++
+		}
 	}
+	r.err = io.ErrNoProgress
 	return len(r.buf) - r.ri
 }
 
